@@ -159,11 +159,17 @@ def pure_b(repo: Repo) -> List[Ob]:
         # container accepts (foreign types are rejected by the operand validation, C17): the fall-through
         # of the *last* arm of a chain whose arms compute the dimensions is not a feasible path
         dead_edges = set()
+        from ..model import expand_src as _xs
+
+        def on_type(t: ast.AST) -> bool:          # named predicates (`is_fock_op = isinstance(op_type, …)`) are read through
+            return "_operation_type" in _xs(fi.node, t, depth=4)
+        chained = set()
         for st in walk_no_nested(fi.node):
-            if isinstance(st, ast.If) and "_operation_type" in src(st.test):
+            if isinstance(st, ast.If) and on_type(st.test) and id(st) not in chained:
                 chain = [st]
-                while len(chain[-1].orelse) == 1 and isinstance(chain[-1].orelse[0], ast.If) and "_operation_type" in src(chain[-1].orelse[0].test):
+                while len(chain[-1].orelse) == 1 and isinstance(chain[-1].orelse[0], ast.If) and on_type(chain[-1].orelse[0].test):
                     chain.append(chain[-1].orelse[0])
+                    chained.add(id(chain[-1]))
                 arms_ok = all(any(method_call(x) and method_call(x)[1] == "compute_dimensions" for b in c.body for x in [b] + list(walk_no_nested(b))) for c in chain)
                 if arms_ok and not chain[-1].orelse:
                     for tn in cfg.nodes_of(chain[-1]):
@@ -518,6 +524,12 @@ def interp(repo: Repo) -> List[Ob]:
                     arms[c.pattern.value.value] = c
                     head = src(n.subject)
     got = set(arms)
+    if not got:
+        # no `if op == "<command>"` / `match` arm at all: the interpreter is organised in a way this rule does not read
+        # (a command table, an inner evaluator, …) – undecided, not a violation
+        obs.append(skip("INTERP", fi, "command-set", P, fn, "the interpreter does not dispatch on string comparisons of the head symbol (command table / inner evaluator): "
+                                                            "its arms cannot be read by this rule"))
+        return obs
     (obs.append(ok("INTERP", fi, "command-set", P, fn, f"handlers exist for exactly {sorted(got)}")) if got == DOCUMENTED else
      obs.append(bad("INTERP", fi, "command-set", P, fn, f"handled commands {sorted(got)} differ from the documented set {sorted(DOCUMENTED)} (missing {sorted(DOCUMENTED - got)}, extra {sorted(got - DOCUMENTED)})")))
     # head symbol / args come from `op, *args = expr`
@@ -555,6 +567,14 @@ def interp(repo: Repo) -> List[Ob]:
                  obs.append(ok("INTERP", fi, key, P, arm if isinstance(arm, ast.If) else fn, f"left fold (reduce) of {want} over the arguments in order")))
                 continue
             if not init or not loops:
+                # a whole-array reduction is not the documented fold: jnp.prod / jnp.sum over the stacked operands multiplies (adds) all
+                # *entries* of every operand together instead of combining the operands
+                red_calls = [x for s_ in body for x in ast.walk(s_) if isinstance(x, ast.Call) and call_np(x) in ("prod", "sum", "cumprod")
+                             and not any(k_.arg == "axis" for k_ in x.keywords) and len(x.args) == 1]
+                if red_calls:
+                    obs.append(bad("INTERP", fi, key, P, red_calls[0],
+                                   f"`{cmd}` is computed with `{src(red_calls[0])[:50]}`, a reduction over all entries of its operands, not the documented {want} of the operands in argument order"))
+                    continue
                 # other idiom
                 obs.append(skip("INTERP", fi, key, P, arm if isinstance(arm, ast.If) else fn, "n-ary fold idiom not recognised"))
                 continue
